@@ -301,7 +301,10 @@ def run(ctx, obs, prop: str):
     obs.analysed['sweep_loop_carry'] = loop_carry(ctx, obs, pre)
     obs.analysed['sweep_loop_shadow'] = loop_shadow(ctx, obs, pre)
     obs.analysed['sweep_triangular_solves'] = triangular_solve(ctx, obs, pre)
-    obs.analysed['sweep_mask_weight'] = mask_as_weight(ctx, obs, pre + EXTRA_SELECT_SCOPE.get(prop, []))
+    # C15: a pair without a valid product is NaN by contract, so the values combined after the compiled kernel may be NaN and a
+    # dense 0/1 indicator product would spread one NaN over all pairs; elsewhere the indicator products act on NaN-free vectors
+    obs.analysed['sweep_mask_weight'] = mask_as_weight(ctx, obs, pre + EXTRA_SELECT_SCOPE.get(prop, []),
+                                                       indicator_helpers=INDICATOR_HELPERS if prop == 'C15' else ())
     obs.analysed['sweep_run_lengths'] = run_lengths(ctx, obs, pre + EXTRA_SELECT_SCOPE.get(prop, []))
     sel = pre + EXTRA_SELECT_SCOPE.get(prop, [])
     obs.analysed['sweep_tolerance_selections'] = tolerance_selection(ctx, obs, sel)
@@ -1127,7 +1130,10 @@ def _index_kind(sl, r, depth=0):
 
 
 # ----------------------------------------------------------------------------------------------------- MASK-WEIGHT
-def mask_as_weight(ctx, obs, prefixes: Sequence[str], rule='MASK-WEIGHT') -> int:
+INDICATOR_HELPERS = ('row_col_indicator_rdm', 'row_col_indicator_g', 'indicator')
+
+
+def mask_as_weight(ctx, obs, prefixes: Sequence[str], rule='MASK-WEIGHT', indicator_helpers: Sequence[str] = ()) -> int:
     """A per-group statistic is taken over the rows SELECTED for the group (`x[mask]`, `x[idx]`).  Multiplying the whole array by a
     0/1 membership matrix instead (`(labels == k) @ x`, `np.dot(member.astype(float), x)`, einsum with the membership) adds
     `0 * x[j]` for every row outside the group: a NaN / inf anywhere in the data (missing measurements are legal) turns the means
@@ -1163,10 +1169,21 @@ def mask_as_weight(ctx, obs, prefixes: Sequence[str], rule='MASK-WEIGHT') -> int
                 return is_member(e.value, depth + 1) if not isinstance(e.value, ast.Name) or e.value.id in local else False
             if isinstance(e, ast.BinOp) and isinstance(e.op, (ast.Mult, ast.Div)):
                 return is_member(e.left, depth + 1) or is_member(e.right, depth + 1)
+            if isinstance(e, ast.Call) and indicator_helpers and _leafname(e.func) in indicator_helpers:
+                return True
             if isinstance(e, ast.Name):
+                if e.id in unpacked_indicators:
+                    return True
                 vals = local.get(e.id, [])
                 return len(vals) == 1 and is_member(vals[0], depth + 1)
             return False
+        # names bound by unpacking the (dense 0/1) result of an indicator helper: row_idx, col_idx = row_col_indicator_rdm(n)
+        unpacked_indicators = set()
+        if indicator_helpers:
+            for s_ in ast.walk(f.node):
+                if isinstance(s_, ast.Assign) and isinstance(s_.targets[0], (ast.Tuple, ast.List)) and isinstance(s_.value, ast.Call) \
+                        and _leafname(s_.value.func) in indicator_helpers:
+                    unpacked_indicators |= {t.id for t in s_.targets[0].elts if isinstance(t, ast.Name)}
         for e in ast.walk(f.node):
             ops = None
             if isinstance(e, ast.BinOp) and isinstance(e.op, ast.MatMult):
